@@ -42,7 +42,9 @@ fn run_problem_display(e: &Sexp) -> Result<Sexp, String> {
 fn gen_emit(rng: &mut Rng) -> Sexp {
     let mut raw = tg::raw_problem(rng);
     if !raw.formulas.iter().any(|f| f.role == pb::Role::Conjecture) {
-        raw.formulas.last_mut().unwrap().role = pb::Role::Conjecture;
+        if let Some(last) = raw.formulas.last_mut() {
+            last.role = pb::Role::Conjecture;
+        }
     }
     l(vec![conv::problem(&raw), a(if rng.chance(50) { "independent" } else { "sequential" })])
 }
@@ -92,7 +94,21 @@ fn run_pipeline(e: &Sexp) -> Result<Sexp, String> {
 // ---- strong_transition: (left right) -> the transition axioms of the forward problem
 fn gen_programs(rng: &mut Rng) -> Sexp {
     let cfg = g::AspCfg { max_rules: 3, max_body: 2, partial_ops: rng.chance(50), ..g::AspCfg::default() };
-    l(vec![conv::program(&g::program(rng, &cfg)), conv::program(&g::program(rng, &cfg))])
+    let mut left = g::program(rng, &cfg);
+    let mut right = g::program(rng, &cfg);
+    // 8 %: a side from the tau* grammar with variables around the usize boundary of the global counter
+    // (tau* panics: F11); 2 %: a side without rules (no conjecture: no problem is emitted)
+    if rng.chance(8) {
+        let mut tc = crate::ext::taustar::TCfg::adversarial(rng);
+        tc.huge = 30;
+        tc.max_rules = 2;
+        let p = crate::ext::taustar::program(rng, &tc);
+        if rng.chance(50) { left = p } else { right = p }
+    }
+    if rng.chance(2) {
+        if rng.chance(50) { left.rules.clear() } else { right.rules.clear() }
+    }
+    l(vec![conv::program(&left), conv::program(&right)])
 }
 fn run_strong_transition(e: &Sexp) -> Result<Sexp, String> {
     use anthem::verif::arguments::{Decomposition, FormulaRepresentation};
@@ -109,7 +125,10 @@ fn run_strong_transition(e: &Sexp) -> Result<Sexp, String> {
                 break_equivalences: false,
             };
             let problems = task.decompose().map_err(|_| "decompose failed".to_string())?.data;
-            let first = problems.first().ok_or("no problem emitted")?;
+            // no rule on the right = no conjecture = no problem: `(none)` (the model side answers the same;
+            // an overflow panic of tau* - variable V18446744073709551615, finding F11 - propagates as `(panic)`
+            // and the model side computes TauStar.tau_star of both programs for that; audit 2, B16 / T13)
+            let Some(first) = problems.first() else { return Ok(tagged("none", vec![])) };
             Ok(tagged(
                 "theory",
                 first.formulas.iter().filter(|f| f.name.contains("transition_axiom")).map(|f| conv::formula(&f.formula)).collect(),
